@@ -140,8 +140,8 @@ CountersMatch == CountersMatchM(m) /\ CardMatchM(m)
 \* with ONE injective mapping (for a grow-only map this is the linearisability condition)
 RepliesAgree  == \A r \in replies : HasM(m, r.ns, r.x) /\ TokenM(m, r.ns, r.x) = r.k
 Stable        == [][StableM(m, m')]_mvars
-\* everything terminates idle with every request answered
-Quiescent     == (\A c \in Clients : pc[c] = "idle" /\ calls[c] = MaxCalls) => Cardinality(replies) >= 1
+\* a lexeme is in the map exactly when some call was answered for it (mint and reply are one step)
+NoOrphans     == \A ns \in NS : DOMAIN m[ns].map = {r.x : r \in {q \in replies : q.ns = ns}}
 
 \* ============================ Part 3: the token-level verdict ============================
 (* Input token  [c, x, lo, alt, k, r, f, sub]:
@@ -153,8 +153,9 @@ Quiescent     == (\A c \in Clients : pc[c] = "idle" /\ calls[c] = MaxCalls) => C
      f    ids of every spelling of the lexeme that must not appear in the output (name, value, source text)
    Output token [t, lo, h, s]: t id of the text, lo lower-case id, h ids of forms (length >= 2) that
      occur inside the text as substrings, s the text itself.
-   A verdict mapping [n, v, forms, rawn, rawv]: per namespace the function lexeme identity -> output
-     token observed so far, plus every form and every raw key seen since the mapping was created. *)
+   A verdict mapping [n, v, forms, rawn, rawv, clean]: per namespace the function lexeme identity ->
+     output token observed so far, plus every form and every raw key seen since the mapping was
+     created; clean = no disagreement since then (bookkeeping of Trace_Redact). *)
 Marker == "<unparseable>"
 PlaceholderClass == {"ident", "strlit", "numlit", "hexlit", "bitlit"}
 StructuralClass  == {"kw", "op", "bind"}
@@ -167,7 +168,7 @@ RawOf(in, ns) == {in[i].r : i \in {j \in DOMAIN in : in[j].c \in PlaceholderClas
 \* the source spellings of the keywords / operators / bind placeholders of the statement
 StructIds(in) == UNION {{in[i].x, in[i].lo} : i \in {j \in DOMAIN in : in[j].c \in StructuralClass}}
 
-EmptyVM == [n |-> <<>>, v |-> <<>>, forms |-> {}, rawn |-> {}, rawv |-> {}]
+EmptyVM == [n |-> <<>>, v |-> <<>>, forms |-> {}, rawn |-> {}, rawv |-> {}, clean |-> TRUE]
 
 \* NoLeak over token sets: none of the given output tokens is (or contains) a spelling of an
 \* identifier / literal / comment of the input
@@ -231,7 +232,8 @@ Verdict(in, out, vmB, vmA) ==
 Conforms(inTokens, outTokens, mappingBefore, mappingAfter) ==
     /\ mappingAfter = After(inTokens, outTokens, mappingBefore)
     /\ Verdict(inTokens, outTokens, mappingBefore, mappingAfter) = {}
-\* spelled out (implied by the above; kept as the readable statement of the property)
+\* spelled out: the readable statement of the property.  Trace_Redact cross-checks on every accepted
+\* statement of a so-far clean trace that Verdict = {} implies it ("SX" line otherwise).
 ConformsSpelledOut(in, out, vmB, vmA) ==
     LET inNC == NonComment(in) IN
     /\ Len(out) = Len(inNC)
